@@ -243,7 +243,7 @@ def run(ctx):
     ctx.cov["clauses_proved"] = ["the projection of any interleaving of a product of per-process machines onto one process is that process's solo run (K3)",
                                  "a write-through cache of any capacity and any eviction choice of idle entries returns what the store holds (K3)",
                                  "a second start of a present id is refused (model of Runtime::start)"]
-    ctx.cov["clauses_not_proved"] = ["that the engine is such a product (decided by the projections)", "thread-level atomicity inside the engine"]
+    ctx.cov["clauses_not_proved"] = ["that the engine is such a product (decided by the projections)", "thread-level atomicity inside the engine", "a single live copy per process (false of the engine under load: witness two_live_copies_diverge, recorded finding)"]
 
 
 def replay(ctx, data):
